@@ -1147,6 +1147,8 @@ pub struct TxOutcome {
     pub ok: bool,
     pub failed_ix: Option<usize>,
     pub ix_outcomes: Vec<IxOutcome>,
+    /// ledger after each successfully executed instruction (cheap copies)
+    pub post_ix: Vec<Ledger>,
 }
 
 impl TxOutcome {
@@ -1174,6 +1176,9 @@ pub fn exec_tx(ledger: &mut Ledger, tx: &Tx, opts_for: &dyn Fn(usize) -> ExecOpt
         let o = exec_ix(&mut work, ix, &flags, &opts_for(i));
         let ok = o.ok();
         res.ix_outcomes.push(o);
+        if ok {
+            res.post_ix.push(work.clone());
+        }
         if !ok {
             res.ok = false;
             res.failed_ix = Some(i);
